@@ -101,7 +101,7 @@ let run_case (toks : string list) : string option =
   | ["tcpseq"; cfg; timeout_ms; ops] ->
     let c = parse_rcfg cfg in
     let timeout = Z.mul (zi timeout_ms) (z_of_int 1000000) in
-    let now = ref Z0 and l = ref [] and outs = ref [] in
+    let now = ref Z0 and l = ref [] and outs = ref [] and queue = ref [] in
     List.iter (fun op0 ->
         (* S / R ops carry the clock reading at which the implementation ran them *)
         let (op, at) = (match String.split_on_char '@' op0 with [a; t] -> (a, Some (zi t)) | _ -> (op0, None)) in
@@ -117,11 +117,23 @@ let run_case (toks : string list) : string option =
               | Fault f -> outs := ("fault:" ^ fault_name f) :: !outs)
            | _ -> outs := "?" :: !outs)
         | 'T' -> outs := "t" :: !outs
+        | 'Q' ->
+          (match String.index_opt op ':' with
+           | Some i ->
+             let f = String.sub op 1 (i - 1) and b = String.sub op (i + 1) (String.length op - i - 1) in
+             queue := !queue @ [((if f = "-" then None else Some (unhex f)), unhex b)];
+             outs := "q" :: !outs
+           | None -> outs := "?" :: !outs)
         | _ ->
           let (l', res) = recv_tcp_sockets_list c !now timeout !l in
           l := l';
+          (* nothing from the TCP sockets: the ICMP socket is read - ONE queued datagram, else the read timeout;
+             a datagram stays queued while a TCP socket answers *)
           let res = (match res with
-              | Ok None -> recv_probe c !now None NotReadable
+              | Ok None ->
+                (match !queue with
+                 | (f, b) :: rest -> queue := rest; recv_probe c !now None (Readable (SrData (b, f)))
+                 | [] -> recv_probe c !now None NotReadable)
               | r -> r) in
           (* the harness prints receive times as 0 (they are wall-clock readings) *)
           let zero_time o = (match String.split_on_char '/' o with
@@ -130,6 +142,15 @@ let run_case (toks : string list) : string option =
           outs := zero_time (observe res "-") :: !outs)
       (split_on ',' ops);
     Some (String.concat "|" (List.rev !outs))
+  | ["recv2"; cfg; from; first; _second] ->
+    (* one call consumes the first datagram only; the second stays queued *)
+    let c = parse_rcfg cfg in
+    let b = unhex first in
+    let res = (if List.length c.rc_dest = 16
+               then recv6 c Z0 (if from = "-" then None else Some (unhex from)) b
+               else recv4 c Z0 b) in
+    let res = (match c.rc_proto with Tcp -> (match recv_probe c Z0 None NotReadable with Ok None -> res | r -> r) | _ -> res) in
+    Some (observe res "-" ^ " left=1")
   | ["sockerr"; cfg; what] ->
     let c = parse_rcfg cfg in
     let k = z_of_int 13 in
